@@ -5,7 +5,7 @@ from ..facts import AnalysisBroken
 from ..interp import normx, nkey, run_all
 from ..fsm import Machine, EVLIST as L, EV
 
-UNITS = ["event"]
+UNITS = ["event", "signal", "signalfd"]
 LEVEL = "other"
 CONFIGS = ["build", "assert"]
 EXPLANATION = (
@@ -443,6 +443,43 @@ def rule_ctl(P):
     return r
 
 
+def rule_internal_prio(P):
+    """event_process_active goes on to lower-priority queues in the same pass when a queue held only internal callbacks (count 0).  That is sound only because internal events sit at
+    priority 0 - nothing user-visible is above them.  Every event that is marked EVLIST_INTERNAL is therefore given priority 0 where it is set up."""
+    r = Rule("C03-internal-prio", "K1", "every event marked EVLIST_INTERNAL is given priority 0 in the function that sets it up", floor=3)
+    for f in P.all_fns:
+        for el, lhs, op, rhs in f.stores():
+            l = strip(lhs)
+            if not (is_e(l, "fld") and l[2] in ("event_callback.evcb_flags", "event.ev_flags") and op in ("|=", "=")):
+                continue
+            if not any(is_e(q, "int") and len(q) > 2 and q[2] == "EVLIST_INTERNAL" for q in walk(rhs)):
+                continue
+            # the event the flag belongs to: strip the ev_evcallback / flags fields
+            evx = l[1]
+            while is_e(strip(evx), "fld") and strip(evx)[2] in ("event.ev_evcallback",):
+                evx = strip(evx)[1]
+            evx = strip(evx)
+            ok = False
+            for c in f.calls("event_priority_set"):
+                a0 = strip(c.e[2][0])
+                if is_e(a0, "addr"):
+                    a0 = strip(a0[1])
+                p0 = strip(c.e[2][1])
+                if eq(a0, evx) and is_e(p0, "int") and p0[1] == 0:
+                    ok = True
+            if not ok:
+                # or a direct store of priority 0
+                for e2, l2, o2, r2 in f.stores():
+                    l2 = strip(l2)
+                    if is_e(l2, "fld") and l2[2].endswith("evcb_pri") and o2 == "=" and is_e(strip(r2), "int") and strip(r2)[1] == 0 and root_var(l2) == root_var(evx):
+                        ok = True
+            r.inst((f.name, el.n), {"fn": f.name, "site": el.where(), "event": show(evx), "priority_0_set": ok})
+            if not ok:
+                r.bad("K1:%s:internal-event-not-priority-0" % f.name, el.where(), f.name,
+                      "%s is marked internal but not given priority 0: its callback would run in a middle queue, and a pass that finds only internal callbacks there goes on to lower priorities although the callback has just activated a higher-priority event" % show(evx))
+    return r
+
+
 def run(ctx, config):
     P = ctx.prog(UNITS, config)
-    return [rule_loop(P), rule_single(P), rule_prio(P), rule_later(P), rule_ctl(P)]
+    return [rule_loop(P), rule_single(P), rule_prio(P), rule_later(P), rule_ctl(P), rule_internal_prio(P)]
